@@ -464,6 +464,10 @@ def _const_int(d, e, env):
     if k == "Cast":
         return _const_int(d, e["e"], env)
     if k == "Path":
+        segs_ = A.path_segs(e) or []
+        lim = {("i8", "MAX"): 127, ("u8", "MAX"): 255, ("i16", "MAX"): 32767, ("u16", "MAX"): 65535, ("i32", "MAX"): 2**31 - 1, ("u32", "MAX"): 2**32 - 1}
+        if tuple(segs_[-2:]) in lim:
+            return lim[tuple(segs_[-2:])]
         n = A.ident(e)
         if n in env:
             return env[n]
@@ -471,11 +475,17 @@ def _const_int(d, e, env):
             if it.get("k") == "Const" and it.get("name") == n and it.get("e") is not None:
                 return _const_int(d, it["e"], {})
         return None
-    if k == "Binary" and e["op"] in ("+", "-", "*"):
+    if k == "Binary" and e["op"] in ("+", "-", "*", "/"):
         l, r = _const_int(d, e["left"], env), _const_int(d, e["right"], env)
-        if l is None or r is None:
+        if l is None or r is None or (e["op"] == "/" and r == 0):
             return None
-        return {"+": l + r, "-": l - r, "*": l * r}[e["op"]]
+        return {"+": l + r, "-": l - r, "*": l * r, "/": l // r if e["op"] == "/" else 0}[e["op"]]
+    if k == "Call" and not e["args"]:
+        t = A.unparse(e["func"]).replace(" ", "")
+        m = re.search(r"size_of::<(\w+)>$", t)
+        sizes = {"f32": 4, "u32": 4, "i32": 4, "f64": 8, "u64": 8, "i64": 8, "usize": 8, "u8": 1, "i8": 1, "u16": 2, "Interval": 8, "Grad": 16}
+        if m and m.group(1) in sizes:
+            return sizes[m.group(1)]
     return None
 
 
